@@ -226,6 +226,10 @@ def run_config(w, c, idx, psize=None):
             args += ["--to" if lng else "-t", to]
             if cmd == "encrypt":
                 args += ["--from" if lng else "-f", "nobody" if cause == "unknown_sender" else "alice"]
+        if c.get("probe_from") and cmd == "decrypt":
+            # an option the pinned tool does not have for decryption ("expect this sender"): refused, or - should a tool take
+            # it - never a reason to name somebody who is not the holder of the authenticated key
+            args += ["--from" if lng else "-f", "alice"]
         if cause == "bad_args":
             if cmd in ("encrypt", "decrypt") and idx % 2 == 0:
                 # drop the required recipient option
@@ -240,6 +244,10 @@ def run_config(w, c, idx, psize=None):
         if cause == "output_is_directory":
             out_path = sb.path("outdir")
             os.mkdir(out_path)
+        if cmd == "key_generate" and c["prior"] == "present" and cause not in ("same_in_out",):
+            # what the existing file holds: free text, a keyring that already has a key of the name about to be generated, or
+            # text that is no keyring at all - `key generate` appends to whatever is there, or fails and leaves it alone
+            prior = [prior, (cli.keyring_text([("newname", w.keys["carol"], True)]) + "\n").encode(), b"[Key]\nName = broken section\n"][c.get("gprior", idx % 3)]
         if c["outp"] == "file":
             args += ["--output" if lng else "-o", out_path]
             if c["prior"] == "present":
@@ -346,11 +354,12 @@ def run_config(w, c, idx, psize=None):
             # key generate: the block for "newname", appended to what was there
             text = got.decode("utf-8", "replace")
             base = prior.decode() if (c["outp"] == "file" and c["prior"] == "present") else ""
-            m = re.search(r"\[Key\]\nName = newname\nPublicKey = (\S+)\nPrivateKey = (\S+)\n", text)
+            ms = re.findall(r"\[Key\]\nName = newname\nPublicKey = (\S+)\nPrivateKey = (\S+)\n", text)
             ok = False
-            if m:
-                u = cli.driver_ops(w.pid, w.tpl, [{"op": "unlock", "locked": m.group(2), "password_hex": b"gen-pw".hex()}], w.seed, "gen")[0]
-                ok = u.get("ok") and u.get("pub_enc") == m.group(1)
+            if ms:
+                m1, m2 = ms[-1]          # the block this run appended (the file may already hold a key of that name)
+                u = cli.driver_ops(w.pid, w.tpl, [{"op": "unlock", "locked": m2, "password_hex": b"gen-pw".hex()}], w.seed, "gen")[0]
+                ok = u.get("ok") and u.get("pub_enc") == m1
             if ok and base and text.startswith(base):
                 out = "appended"
             elif ok and not base:
@@ -529,6 +538,12 @@ def c13(pid, tier, seed, selftest=False):
         if thorough or (c["long"] is False and c["alias"] is False and c["sender"] == "first"
                         and (c["kr"] == "opt" or (c["cause"] == "non_utf8_keyring_path" and c["kr"] == "env"))):
             sel.append(c)
+    # `key generate -o F` onto existing files of every kind (free text, a keyring that already has that name, a broken
+    # section): it either appends and succeeds, or fails and leaves F as it was
+    for gp in (0, 1, 2):
+        for lng in (False, True):
+            sel.append({"cmd": "key_generate", "cause": "none", "prior": "present", "inp": "stdin", "outp": "file", "kr": "opt", "long": lng, "alias": lng,
+                        "sender": "first", "gprior": gp})
     w = World(pid, tpl, seed)
     for c in sel:
         rep.case(json.dumps(c, sort_keys=True), True)
@@ -593,6 +608,9 @@ def exec_gen_history(w, hid, initial, n, vias=None):
             special = ["[Key] %s", "# hash %s", "a=b %s", "Name = x %s", "= %s", "PublicKey = zzz %s", "tab\tin %s"][(k + int(hid[1:])) % 7] % suffix
             name = ["gen key %d %s" % (k, hid), suffix.ljust(128, "x"), "é" * (fill // 2) + "x" * (fill % 2) + suffix,
                     "%s%d" % (hid[-1], k), special][(k + int(hid[1:])) % 5]
+            if k >= 1 and (k + int(hid[1:])) % 4 == 1 and names[k - 1].swapcase() != names[k - 1] and len(names[k - 1].swapcase().encode()) <= 128:
+                # a name that differs from the previous one only in letter case is another name, for another key
+                name = names[k - 1].swapcase()
             assert len(name.encode()) <= 128
             pw = GEN_PASSWORDS[(k + 3 * int(hid[1:])) % len(GEN_PASSWORDS)]
             before = sb.read("keyring.txt")
@@ -898,6 +916,7 @@ def c16(pid, tier, seed, selftest=False):
     rep.extra["steps_checked"] = len(evs)
     # typed at a terminal: the key is re-locked under the password that was CONFIRMED (typed twice identically) - entries of
     # which one is only a prefix of the other (a character missed, Enter alone) are different passwords
+    multi_operand_probes(rep, pid, tpl, seed, "C16")
     tty_extension(rep, pid, tpl, seed, thorough, ["C16_"], channels=("tty", "stdin"),
                   select=lambda s_: s_["cmd"] == "change_pass" and (len(s_["script"]) <= 3 or tty_interesting(s_)))
     return rep.finish()
@@ -1078,6 +1097,16 @@ def c09(pid, tier, seed, selftest=False):
                          ["key", "change-pass", wk, "--env-pass"], ["key", "generate", "--env-pass"], ["decrypt", "x", "-t", "nobody", "-k", "x", "--env-pass"],
                          ["password", "decrypt", "x", "--env-pass"], ["bogus"]]
         fvec = informational + [v for i, v in enumerate(vectors) if i % (7 if thorough else 29) == 0]
+        # operands that are paths of a special shape, as FILE and as the value of -o / -k (longer vectors than the model's bound)
+        odd_paths = [".", "..", "/", "x/..", "./", "-", "nodir/out", "x/", "//"]
+        for cmdw in (["encrypt", "-t", "a", "-f", "b", "-k", "x"], ["decrypt", "-t", "a", "-k", "x"], ["password", "encrypt"], ["password", "decrypt"]):
+            for pth in odd_paths:
+                vectors.append(cmdw[:1 if cmdw[0] != "password" else 2] + ["x", "-o", pth] + cmdw[1 if cmdw[0] != "password" else 2:] + ["--env-pass"])
+                vectors.append(cmdw[:1 if cmdw[0] != "password" else 2] + [pth, "-o", "out.bin"] + cmdw[1 if cmdw[0] != "password" else 2:] + ["--env-pass"])
+                vectors.append(cmdw[:1 if cmdw[0] != "password" else 2] + [pth, "-o", pth] + cmdw[1 if cmdw[0] != "password" else 2:] + ["--env-pass"])
+        odd_from = len(vectors) - 4 * 3 * len(odd_paths)
+        with cf.ThreadPoolExecutor(max_workers=NCPU) as ex:
+            aevs += list(ex.map(one, [(i, v) for i, v in enumerate(vectors) if i >= odd_from]))
 
         def one_fault(ivs):
             i, v, streams = ivs
@@ -1442,6 +1471,125 @@ def process_level_stream(rep, pid, tpl, seed):
     rep.extra["process_level_syscalls_checked"] = len(evs)
     for r in runs:
         rep.case("strace:" + r[0]["id"], True)
+
+
+def multi_operand_probes(rep, pid, tpl, seed, prop):
+    """Invocations with SEVERAL operands where the pinned tool takes one (two input files, two private keys): refused - or,
+    should a tool take them, every output still gets randomness of its own (salts / ephemeral keys pairwise distinct, and
+    distinct from those of the inputs)."""
+    keys = cli.make_keys(pid, tpl, seed, [("alice", b"alice-pw"), ("bob", b"bob-pw"), ("alice2", b"alice-pw")])
+    evs = []
+    with cli.Sandbox(pid, "multi") as sb:
+        sb.write("a.txt", b"first plaintext\n")
+        sb.write("b.txt", b"second, another plaintext\n")
+        sb.write("kr.txt", cli.keyring_text([("alice", keys["alice"], True), ("bob", keys["bob"], True)]))
+
+        def new_files(before):
+            return sorted(set(os.listdir(sb.dir)) - before)
+        probes = [("pass-enc-two-files", ["password", "encrypt", "a.txt", "b.txt", "--env-pass"], {"KESTREL_PASSWORD": "multi-pw"}, 36),
+                  ("enc-two-files", ["encrypt", "a.txt", "b.txt", "-t", "bob", "-f", "alice", "-k", "kr.txt", "--env-pass"], {"KESTREL_PASSWORD": "alice-pw"}, 132)]
+        for name, args, env, hdr in probes:
+            before = set(os.listdir(sb.dir))
+            r = cli.kestrel(args, env=env, cwd=sb.dir, timeout=60)
+            outs = [open(sb.path(f), "rb").read() for f in new_files(before)]
+            vals = [o[4:36] for o in outs if len(o) >= hdr]
+            evs.append({"ev": "multi", "id": name, "prop": prop, "accepted": r.rc == 0 and len(vals) >= 2, "distinct": len(set(vals)) == len(vals),
+                        "outputs": len(outs), "stderr": r.err_text[-150:]})
+        r = cli.kestrel(["key", "change-pass", keys["alice"]["locked"], keys["alice2"]["locked"], "--env-pass"],
+                        env={"KESTREL_PASSWORD": "alice-pw", "KESTREL_NEW_PASSWORD": "new-pw"}, timeout=60)
+        locked = re.findall(rb"PrivateKey = (\S+)", r.out)
+        salts = []
+        for l_ in locked + [keys["alice"]["locked"].encode(), keys["alice2"]["locked"].encode()]:
+            try:
+                salts.append(base64.b64decode(l_)[4:36])
+            except Exception:
+                salts.append(b"undecodable" + l_[:20])
+        evs.append({"ev": "multi", "id": "change-pass-two-keys", "prop": prop, "accepted": r.rc == 0 and len(locked) >= 2,
+                    "distinct": len(set(salts)) == len(salts), "outputs": len(locked), "stderr": r.err_text[-150:]})
+    for e in evs:
+        rep.case("multi:" + e["id"], True)
+    validate_events(rep, pid, "multi-operand", evs, [prop + "_"])
+
+
+def tty_damaged_file(rep, pid, tpl, seed):
+    """C04 at a terminal: `password decrypt` / `decrypt` of a file whose SECOND chunk is damaged, the right password typed
+    at the prompt - and typed again should the tool ask again, then Ctrl-C.  Whatever the tool does after the failure, the
+    output path holds the first chunk and nothing else, and the run does not end in success."""
+    w = World(pid, tpl, seed)
+    keys = cli.make_keys(w.pid, w.tpl, w.seed, [("ttyalice", TTY_WORDS["good"].encode()), ("ttybob", TTY_WORDS["good"].encode())])
+    evs = []
+    for api in ("pass", "key"):
+        for cause in ("corrupt_later_chunk", "truncated_later_chunk"):
+            with cli.Sandbox(pid, "ttyd") as sb:
+                op = {"op": "specfile", "api": api, "chunks": [65536, 65536, 1000], "pseed": 9, "tag": "ttyd", "out": sb.path("good.ktl")}
+                if api == "key":
+                    op.update({"s_priv_hex": keys["ttyalice"]["sk_hex"], "r_pub_hex": keys["ttybob"]["pk_hex"]})
+                else:
+                    op["password_hex"] = TTY_WORDS["good"].encode().hex()
+                cli.driver_ops(pid, tpl, [op], seed, "ttyd")
+                good = sb.read("good.ktl")
+                plain = sb.read("good.ktl.plain")
+                sb.write("in.ktl", corrupt(good, cause, 132 if api == "key" else 36))
+                sb.write("kr.txt", cli.keyring_text([("alice", keys["ttyalice"], True), ("bob", keys["ttybob"], True)]))
+                args = (["decrypt", sb.path("in.ktl"), "-t", "bob", "-o", sb.path("out.bin"), "-k", sb.path("kr.txt")] if api == "key"
+                        else ["password", "decrypt", sb.path("in.ktl"), "-o", sb.path("out.bin")])
+                rc, transcript, answered = ptyrun.run_tty(args, [TTY_WORDS["good"]] * 3, timeout=60, interrupt=True)
+                got = sb.read("out.bin")
+                evs.append({"ev": "ttyd", "id": "ttyd-%s-%s" % (api, cause), "rc": rc, "answered": answered,
+                            "out_is_first_chunk": got == plain[:65536], "out_len": -1 if got is None else len(got),
+                            "transcript_tail": transcript.decode("utf-8", "replace")[-200:]})
+    for e in evs:
+        rep.case(e["id"], True)
+    validate_events(rep, pid, "tty-damaged", evs, ["C04_"])
+
+
+def process_level_rss_chunkings(rep, pid, tpl, seed, mib=40):
+    """C11 at the process boundary (every tier): peak RSS of `kestrel decrypt` / `password decrypt` on a specification-built
+    file of `mib` MiB whose FIRST chunk is short (what an encryption from a pipe leaves), against a two-chunk file."""
+    if not os.path.exists("/usr/bin/time"):
+        rep.notes.append("/usr/bin/time not available: process-level memory observation skipped")
+        return
+    w = World(pid, tpl, seed)
+    evs = []
+
+    def run(args, env):
+        e = {"PATH": "/usr/bin:/bin", "HOME": "/nonexistent"}
+        e.update(env)
+        p = subprocess.run(["/usr/bin/time", "-v", cli.KESTREL] + args, env=e, stdout=subprocess.PIPE, stderr=subprocess.PIPE, timeout=600)
+        m = re.search(rb"Maximum resident set size \(kbytes\): (\d+)", p.stderr)
+        rc = re.search(rb"Exit status: (\d+)", p.stderr)
+        return (int(rc.group(1)) if rc else p.returncode), (int(m.group(1)) if m else -1)
+    for api in ("key", "pass"):
+        rss = {}
+        okrt = True
+        for label, chunks in (("small", [1000, 65536]), ("large", [1000] + [65536] * (mib * 16))):
+            out = os.path.join(w.dir, "rssc-%s-%s.ktl" % (api, label))
+            op = {"op": "specfile", "api": api, "chunks": chunks, "pseed": 41, "tag": "rssc" + label, "out": out}
+            if api == "key":
+                op.update({"s_priv_hex": w.keys["alice"]["sk_hex"], "r_pub_hex": w.keys["bob"]["pk_hex"]})
+            else:
+                op["password_hex"] = b"file-pw".hex()
+            cli.driver_ops(pid, tpl, [op], seed, "rssc")
+            with cli.Sandbox(pid, "rssc") as sb:
+                sb.write("kr.txt", w.keyring())
+                if api == "key":
+                    args = ["decrypt", out, "-t", "bob", "-o", sb.path("o.bin"), "-k", sb.path("kr.txt"), "--env-pass"]
+                    env = {"KESTREL_PASSWORD": "bob-pw"}
+                else:
+                    args = ["password", "decrypt", out, "-o", sb.path("o.bin"), "--env-pass"]
+                    env = {"KESTREL_PASSWORD": "file-pw"}
+                rc, r_kb = run(args, env)
+                rss[label] = r_kb
+                got = sb.read("o.bin")
+                okrt = okrt and rc == 0 and got == open(out + ".plain", "rb").read()
+            for f_ in (out, out + ".plain"):
+                if label == "large" and os.path.exists(f_):
+                    os.unlink(f_)
+        evs.append({"ev": "rss", "id": "rssc-" + api, "exit": 0 if okrt else 1, "rss_kb": rss["large"], "base_rss_kb": rss["small"], "roundtrip_ok": okrt})
+    for e in evs:
+        rep.case(e["id"], True)
+    validate_events(rep, pid, "rss-chunkings", evs, ["C11_"])
+    rep.extra["process_level_rss_short_first_chunk_kb"] = {e["id"]: [e["base_rss_kb"], e["rss_kb"]] for e in evs}
 
 
 def process_level_rss(rep, pid, tpl, seed, size_mib):
